@@ -3,12 +3,12 @@
 //!
 //!   sni gen   <vectors.ndjson> <out.ndjson> <seed> <spellings>   abstract vectors (from TLC, Sni_gen.cfg) ->
 //!                                                                 concrete requests -> real outcome
-//!   sni chain <chain.ndjson> <out.ndjson> <seed> <stride>         connection scenarios (behaviour x scenario, from TLC,
+//!   sni chain <chain.ndjson> <out.ndjson> <seed> <reps>         connection scenarios (behaviour x scenario, from TLC,
 //!                                                                 Sni_conngen.cfg) replayed on the REAL chain
 //!                                                                 TLS acceptor -> info channel (info/tls.rs) ->
 //!                                                                 TlsConnectionInfoLayer's service -> ValidateSNI -> app
 //!                                                                 over a real in-memory TLS handshake (env C20_CERTS = dir
-//!                                                                 with cert.pem / key.pem); every `stride`-th line, offset by seed
+//!                                                                 with cert.pem / key.pem); `reps` seeded spellings per line
 //!   sni rerun <records.ndjson> <out.ndjson>                       re-executes the concrete part `c` of records
 //!                                                                 (chain records: the whole connection scenario)
 //!
@@ -530,7 +530,7 @@ async fn main() {
     std::panic::set_hook(Box::new(|_| {}));
     let a: Vec<String> = std::env::args().collect();
     if a.len() < 4 {
-        eprintln!("usage: sni gen <vectors> <out> <seed> <spellings> | sni chain <chain> <out> <seed> <stride> | sni rerun <records> <out>");
+        eprintln!("usage: sni gen <vectors> <out> <seed> <spellings> | sni chain <chain> <out> <seed> <reps> | sni rerun <records> <out>");
         std::process::exit(2);
     }
     let mut out = TraceOut::create(&a[3]);
@@ -553,18 +553,17 @@ async fn main() {
         }
         "chain" => {
             let seed: u64 = a[4].parse().unwrap();
-            let stride: usize = a[5].parse::<usize>().unwrap().max(1);
+            let reps: usize = a[5].parse::<usize>().unwrap().max(1);
             let cfg = tls_cfg();
             let mut rng = StdRng::seed_from_u64(seed ^ 0xC2011);
-            let off = (seed as usize) % stride;
+            let lines = read_lines(&a[2]);
             let mut conns = 0usize;
-            for (idx, line) in read_lines(&a[2]).iter().enumerate() {
-                if idx % stride != off {
-                    continue;
+            for _ in 0..reps {
+                for line in &lines {
+                    let (chain, vs) = instantiate_chain(line, &mut rng);
+                    conns += 1;
+                    emit_chain(&chain, &vs, &cfg, &mut out, &mut n, conns).await;
                 }
-                let (chain, vs) = instantiate_chain(line, &mut rng);
-                conns += 1;
-                emit_chain(&chain, &vs, &cfg, &mut out, &mut n, conns).await;
             }
             out.finish();
             println!("{}", json!({"records": n, "connections": conns}));
